@@ -315,6 +315,7 @@ class InterruptPlan:
         self.starve_after = starve_after
         self.simos = None
         self.raised = 0
+        self.first_raise_event = 0
 
     def cur(self):
         return self.specs[self.i] if self.i < len(self.specs) else None
@@ -322,8 +323,15 @@ class InterruptPlan:
     def _raised_in_main(self):
         """A KeyboardInterrupt is about to be raised in the calling thread."""
         self.raised += 1
+        if self.raised == 1:
+            self.first_raise_event = len(self.rec.events)
         if self.starve_after and self.raised >= self.starve_after and self.sim is not None:
-            self.sim.starve_workers = True
+            # "does not need a single further worker step" only applies once the coordinator's handler of
+            # the first interrupt is active (it has reached runner.cancel()); a second interrupt that
+            # arrives while the first is still unwinding is seen by the coordinator as a single one
+            armed = any(e[0] == 'cancel' for e in self.rec.events[self.first_raise_event:])
+            if armed:
+                self.sim.starve_workers = True
 
     def on_main_line(self):
         s = self.cur()
